@@ -6,7 +6,7 @@
 use crate::c09_pattern::Rec;
 use crate::sym;
 use log::{Level, Record};
-use log4rs::encode::pattern::verif_encode_formatter;
+use log4rs::encode::pattern::{verif_encode_formatter, verif_formatter_direct};
 
 fn any_unit(dst: &mut [u8]) -> usize {
     match sym::below(4) {
@@ -92,10 +92,15 @@ pub fn body_record_fields(witness: bool) {
 /// formatters without record text: newline, thread, system thread id, and the groups: an empty
 /// highlight group (style calls only), empty debug / release groups
 pub fn body_fixed(witness: bool) {
+    body_fixed_mode(false, witness)
+}
+
+pub fn body_fixed_mode(direct: bool, witness: bool) {
     let level = crate::util::any_level();
     let kind = 6 + sym::below(6);
     let mut sink = Rec { buf: [0; crate::c09_pattern::CAP], len: 0, styles: 0, resets: 0 };
-    let res = verif_encode_formatter(&mut sink, &Record::builder().level(level).build(), kind);
+    let rec = Record::builder().level(level).build();
+    let res = if direct { verif_formatter_direct(&mut sink, &rec, kind) } else { verif_encode_formatter(&mut sink, &rec, kind) };
     assert!(res.is_ok());
     let styled = !matches!(level, Level::Debug);
     match kind {
@@ -107,6 +112,63 @@ pub fn body_fixed(witness: bool) {
     }
     cover!(kind == 9 && matches!(level, Level::Trace), "highlight at Trace level");
     cover!(kind == 9 && matches!(level, Level::Debug), "highlight at Debug level: no style");
+    if witness {
+        assert!(false, "WITNESS");
+    }
+}
+
+/// One formatter per instance (`kind` is a constant of the instance, so only its arm of
+/// `FormattedChunk::encode` is executed); record text, level and presence of the optional fields
+/// are symbolic.
+pub fn body_one(kind: u8, witness: bool) {
+    let mut text = [0u8; 8];
+    let mut tl = 0;
+    let units = sym::below(3) as usize;
+    for i in 0..2 {
+        if i < units {
+            tl += any_unit(&mut text[tl..]);
+        }
+    }
+    let s = unsafe { std::str::from_utf8_unchecked(&text[..tl]) };
+    let level = crate::util::any_level();
+    let has = sym::any_bool();
+    let mut sink = Rec { buf: [0; crate::c09_pattern::CAP], len: 0, styles: 0, resets: 0 };
+    let res = verif_formatter_direct(
+        &mut sink,
+        &Record::builder()
+            .level(level)
+            .target(s)
+            .module_path(if has { Some("mod") } else { None })
+            .file(if has { Some("f.rs") } else { None })
+            .line(if has { Some(42) } else { None })
+            .args(format_args!("{}", s))
+            .build(),
+        kind,
+    );
+    assert!(res.is_ok());
+    let lvl: &[u8] = match level {
+        Level::Error => b"ERROR",
+        Level::Warn => b"WARN",
+        Level::Info => b"INFO",
+        Level::Debug => b"DEBUG",
+        Level::Trace => b"TRACE",
+    };
+    let styled = !matches!(level, Level::Debug);
+    match kind {
+        0 => expect(&sink, lvl, 0, 0),
+        1 | 5 => expect(&sink, &text[..tl], 0, 0),
+        2 => expect(&sink, if has { b"mod" } else { b"???" }, 0, 0),
+        3 => expect(&sink, if has { b"f.rs" } else { b"???" }, 0, 0),
+        4 => expect(&sink, if has { b"42" } else { b"???" }, 0, 0),
+        6 => expect(&sink, b"\n", 0, 0),
+        7 => expect(&sink, b"main", 0, 0),
+        8 => expect(&sink, b"7", 0, 0),
+        9 => expect(&sink, b"", styled as u8, styled as u8),
+        _ => expect(&sink, b"", 0, 0),
+    }
+    cover!(!has, "optional record fields absent");
+    cover!(tl >= 3, "text with a multi-byte scalar");
+    cover!(matches!(level, Level::Debug), "Debug level");
     if witness {
         assert!(false, "WITNESS");
     }
@@ -131,4 +193,36 @@ harnesses! {
     fn unit_fixed() { body_fixed(false) }
     #[kani::unwind(8)]
     fn unit_fixed_witness() { body_fixed(true) }
+    #[kani::unwind(8)]
+    fn one_level() { body_one(0, false) }
+    #[kani::unwind(8)]
+    fn one_level_witness() { body_one(0, true) }
+    #[kani::unwind(8)]
+    fn one_message() { body_one(1, false) }
+    #[kani::unwind(8)]
+    fn one_module() { body_one(2, false) }
+    #[kani::unwind(8)]
+    fn one_file() { body_one(3, false) }
+    #[kani::unwind(8)]
+    fn one_line() { body_one(4, false) }
+    #[kani::unwind(8)]
+    fn one_target() { body_one(5, false) }
+    #[kani::unwind(8)]
+    fn one_newline() { body_one(6, false) }
+    #[kani::unwind(8)]
+    fn one_thread() { body_one(7, false) }
+    #[kani::unwind(8)]
+    fn one_tid() { body_one(8, false) }
+    #[kani::unwind(8)]
+    fn one_highlight() { body_one(9, false) }
+    #[kani::unwind(8)]
+    fn one_highlight_witness() { body_one(9, true) }
+    #[kani::unwind(8)]
+    fn one_debug() { body_one(10, false) }
+    #[kani::unwind(8)]
+    fn one_release() { body_one(11, false) }
+    #[kani::unwind(8)]
+    fn direct_fixed() { body_fixed_mode(true, false) }
+    #[kani::unwind(8)]
+    fn direct_fixed_witness() { body_fixed_mode(true, true) }
 }
